@@ -252,7 +252,7 @@ def atoms(seg):
         [["add", R, FA0, ["k"]]],
         [["add", FA0, R, None]],
         [["add", ["f", "A", FB0], ["k"], None]],                         # an entry selected by the value of another entry
-        [["add", ["f", "A", FB0], FA1, ["k"]]],
+        [["add", ["f", "A", FB0], FA1, ["k", 3]]],          # (a concrete modulus: symbolic index AND symbolic modulus made z3 time out now and then)
         [["q", q], ["g", q, "H"], ["m", q, ["newf", f"n{seg}"], False]],
         [["q", q], ["g", q, "X"], ["m", q, FA1, False]],
         [["q", q], ["m", q, ["newr", f"mr{seg}"], False]],
